@@ -68,12 +68,14 @@ def timing_of(t):
 class Replica:
     """One problem under construction together with what the harness needs to address it."""
 
-    def __init__(self, W, kind, name="P", initial_defaults=None):
+    def __init__(self, W, kind, name="P", initial_defaults=None, as_nodes=False):
         self.W = W
         self.kind = kind
         idf = {}
         for t, v in (initial_defaults or []):
-            idf[W.type(t)] = pyconst(W, v)
+            # as_nodes: the mapping already holds expressions (the form the readers use); the CALLER keeps it
+            idf[W.type(t)] = W.expr(v[:2]) if as_nodes and v[0] in ("int", "real", "bool", "o") else pyconst(W, v)
+        self.caller_idf = idf
         if kind == "ma":
             self.p = MultiAgentProblem(name, W.env, initial_defaults=idf)
             return
@@ -84,6 +86,7 @@ class Replica:
     def wrap(cls, W, kind, p):
         r = cls.__new__(cls)
         r.W, r.kind, r.p = W, kind, p
+        r.caller_idf = None
         return r
 
 
@@ -362,6 +365,13 @@ def _apply(W, R, p, k, op):
         if op["obj"] not in W.objects:
             raise BuildError(op["obj"])
         p.add_object(W.objects[op["obj"]])
+        return None
+    if k == "caller_mutates_defaults":
+        # not a library call: the caller changes ITS OWN mapping, the one it passed as initial_defaults
+        idf = getattr(R, "caller_idf", None)
+        if idf is None:
+            raise BuildError("this replica was not built from a caller's mapping")
+        idf[W.type(op["type"])] = W.expr(op["value"][:2])
         return None
     if k == "add_objects_bulk":
         if any(o not in W.objects for o in op["objs"]):
@@ -1248,6 +1258,15 @@ class ModelHist(Engine):
             sched.append(dict(op, to=to))
             if cross is not None:
                 sched.append(cross)
+        rc_ = stream(seed, "caller-mapping")
+        idf_nodes = False
+        if init_defaults and not idf_faulty and rc_.random() < 0.3:
+            idf_nodes = True
+            t_, _ = rc_.choice(init_defaults)
+            bad, _why = self.wrong_value(rc_, t_, objs, tmap)
+            if bad[0] in ("int", "real", "bool", "o"):
+                sched.insert(rc_.randrange(1, max(2, len(sched) // 2)),
+                             {"op": "caller_mutates_defaults", "type": t_, "value": bad[:2], "to": ["P0"]})
         # the same constants handed over as expression nodes instead of python values / model objects (30% of the
         # operations that carry a constant); decided by a stream of its own
         rn = stream(seed, "as-node")
@@ -1256,7 +1275,7 @@ class ModelHist(Engine):
                 v = holder.get(key)
                 if isinstance(v, list) and len(v) == 2 and v[0] in ("int", "real", "bool", "o") and rn.random() < 0.3:
                     holder[key] = v + ["node"]
-        return {"engine": self.name, "kind": kind, "initial_defaults": init_defaults,
+        return {"engine": self.name, "kind": kind, "initial_defaults": init_defaults, "idf_nodes": idf_nodes,
                 "initial_defaults_faulty": idf_faulty, "world": world, "ops": sched}
 
     def generate_ma(self, seed, tier):
@@ -1408,7 +1427,7 @@ class ModelHist(Engine):
         ctx.op_index = 0
         idf_bad = [d for d in script.get("initial_defaults") or [] if not desc_compatible(d[0], d[1], script["world"])]
         try:
-            R0 = Replica(W, script["kind"], "P", script.get("initial_defaults"))
+            R0 = Replica(W, script["kind"], "P", script.get("initial_defaults"), as_nodes=script.get("idf_nodes", False))
         except BuildError:
             raise
         except Exception as ex:
